@@ -55,6 +55,7 @@ type Engine struct {
 
 	icache sync.Map // *ssa.Function -> intrinsicEntry
 	srcHash sync.Map
+	finfo   sync.Map
 }
 
 type HarnessResult struct {
